@@ -15,6 +15,12 @@
 (assert (forall ((l Seq_Err)) (! (= (nf (EJoin l)) (nfL l (Seq_Err.len l))) :pattern ((nf (EJoin l))))))
 (assert (forall ((l Seq_Err) (n Int)) (! (= (nfL l n) (ite (<= n 0) false (or (nfL l (- n 1)) (nf (Seq_Err.nth l (- n 1)))))) :pattern ((nfL l n)))))
 (define-fun-rec allNilL ((l Seq_Err) (n Int)) Bool (ite (<= n 0) true (and (allNilL l (- n 1)) (= (Seq_Err.nth l (- n 1)) ErrNil))))
+; no member of the first n is nil (what errors.Join keeps: (*joinError).Unwrap returns a non-empty list of non-nil errors)
+(define-fun noNilL ((l Seq_Err) (n Int)) Bool (forall ((j Int)) (! (=> (and (<= 0 j) (< j n)) (not (= (Seq_Err.nth l j) ErrNil))) :pattern ((Seq_Err.nth l j)))))
+; the not-found classifier over an appended list / an appended element (used by joinErrors' loop)
+(lemma nfL-snoc-keep :induction n (forall ((l Seq_Err) (e Err) (n Int)) (! (=> (<= n (Seq_Err.len l)) (= (nfL (Seq_Err.snoc l e) n) (nfL l n))) :pattern ((nfL (Seq_Err.snoc l e) n)))))
+(lemma nfL-cat-keep :induction n (forall ((a Seq_Err) (b Seq_Err) (n Int)) (! (=> (<= n (Seq_Err.len a)) (= (nfL (Seq_Err.cat a b) n) (nfL a n))) :pattern ((nfL (Seq_Err.cat a b) n)))))
+(lemma nfL-cat :induction n (forall ((a Seq_Err) (b Seq_Err) (n Int)) (! (=> (and (<= (Seq_Err.len a) n) (<= n (+ (Seq_Err.len a) (Seq_Err.len b)))) (= (nfL (Seq_Err.cat a b) n) (or (nfL a (Seq_Err.len a)) (nfL b (- n (Seq_Err.len a)))))) :pattern ((nfL (Seq_Err.cat a b) n)))))
 
 ; the cursor: positions are compared modulo the EOF latch (next at the end sets pos = len+1)
 (define-fun pOK ((pos Int) (n Int)) Bool (and (<= 0 pos) (<= pos (+ n 1))))
